@@ -105,6 +105,11 @@ structure Chk where
   k : Nat := 0
   nDiv : Nat := 0
   nMon : Nat := 0
+  /-- MON lines already shown, per property: the cap on the output is per property, so that many failures of one
+  property's predicate never hide the first failure of another one's -/
+  monShown : List (String × Nat) := []
+  /-- DIV lines already shown, per component -/
+  divShown : List (String × Nat) := []
   nX : Nat := 0
   nEvents : Nat := 0
   nGroups : Nat := 0
@@ -240,8 +245,18 @@ def chkStep (cfg : Cfg) (c : Chk) (opLine : String) (rec : String × List String
                          nEvents := c.nEvents + ievs.length, evHist := evHist,
                          nGroups := c.nGroups + (if isGroup then 1 else 0),
                          nStateChange := c.nStateChange + (if stLines.isEmpty then 0 else 1) }
-      let shown := (if c.nDiv < limit then divLines else []) ++ (if c.nMon < limit then monLines else [])
-      (c', hdr ++ evErr ++ stErr.reverse ++ xrep ++ shown)
+      -- cap per property / per component
+      let keyOfMon (l : String) : String := (l.splitOn " ").getD 1 ""
+      let keyOfDiv (l : String) : String := (l.splitOn " ").getD 3 ""
+      let pick (shownTab : List (String × Nat)) (key : String → String) (ls : List String) : List String × List (String × Nat) :=
+        ls.foldl (fun (acc : List String × List (String × Nat)) l =>
+          let kk := key l
+          let n := (acc.2.lookup kk).getD 0
+          if n < limit then (acc.1 ++ [l], (kk, n + 1) :: acc.2.filter (fun p => p.1 != kk)) else acc) ([], shownTab)
+      let (dShown, dTab) := pick c.divShown keyOfDiv divLines
+      let (mShown, mTab) := pick c.monShown keyOfMon monLines
+      let c' := { c' with divShown := dTab, monShown := mTab }
+      (c', hdr ++ evErr ++ stErr.reverse ++ xrep ++ dShown ++ mShown)
 
 partial def chkLoop (cfg : Cfg) (ops tr : IO.FS.Stream) (out : IO.FS.Stream) (c : Chk) (la : Option String) (limit : Nat) : IO Chk := do
   match ← nextOpLine ops with
